@@ -178,7 +178,7 @@ def r131(ctx, rep, f, ev, cg, reach, O):
             return
         eff = {}
         for o in out:
-            if "assign" in o and o["guard"] and all(g == "true" for g in o["guard"]):
+            if "assign" in o and o["guard"] and any(g == "true" for g in o["guard"]) and all(g == "true" or g.startswith("not ") for g in o["guard"]):
                 op, lhs, rhs = o["assign"]
                 m = re.fullmatch(r"sym\(self\.(\w+)\)", lhs)
                 name = m.group(1) if m else lhs
@@ -187,7 +187,8 @@ def r131(ctx, rep, f, ev, cg, reach, O):
             eff["last_chip_id"] = "low4" if eff["last_chip_id"] == hex(b & 0xF) else eff["last_chip_id"]
         per_class.setdefault(want[b], {}).setdefault(tuple(sorted(eff.items())), []).append(b)
         conds = [ckey(o["cond"]) for o in out if "cond" in o]
-        pad_conds[b] = conds[3] if len(conds) > 3 else "?"
+        pc = [c for c in conds if c in ("false", "true") or "is_header_seen" in c]
+        pad_conds[b] = pc[-1] if pc else "?"
     for cls, variants in sorted(per_class.items()):
         exp = tuple(sorted(O["effects"].get(cls, {}).items()))
         bad = {k: v for k, v in variants.items() if k != exp}
@@ -219,7 +220,7 @@ def r131(ctx, rep, f, ev, cg, reach, O):
     sk = [o for o in out if "assign" in o and o["assign"][1] == "sym(self.skip_n_bytes)" and o["guard"] == ("Gt(sym(self.skip_n_bytes),0x0)",)]
     rep.check(len(sk) == 1 and sk[0]["assign"][0] == "SubAssign" and sk[0]["assign"][2] == "0x1", "R13.1", "R13.1|skip|decrement", "while skip_n_bytes > 0 one byte is consumed and the counter decremented by 1", WL,
               "skip branch: %s" % [o["assign"] for o in sk])
-    bc = [o for o in out if "assign" in o and o["assign"][1] == "sym(self.next_is_bc)" and o["guard"] == ("symc(sym(self.next_is_bc))",)]
+    bc = [o for o in out if "assign" in o and o["assign"][1] == "sym(self.next_is_bc)" and tuple(o["guard"]) == ("not Gt(sym(self.skip_n_bytes),0x0)", "symc(sym(self.next_is_bc))")]
     rep.check(len(bc) == 1 and bc[0]["assign"][2] == "false", "R13.1", "R13.1|bc|cleared", "the bunch-counter flag is cleared after its byte", WL)
 
     # where the byte is looked at
